@@ -114,7 +114,17 @@ func (r *run) attempt(t *rapid.T) {
 	outs := []*wire.TxOut{wire.NewTxOut(total/int64(rapid.IntRange(2, 6).Draw(t, "fraction")), s.ExternalScript())}
 	if rapid.Bool().Draw(t, "payOwnAddressToo") {
 		own := s.Book.List[rapid.IntRange(0, len(s.Book.List)-1).Draw(t, "ownDest")]
-		outs = append(outs, wire.NewTxOut(3000, own.Script))
+		if rapid.IntRange(0, 2).Draw(t, "ownDestSameScope") > 0 {
+			// in the scope the change will be in: a later send can then
+			// consolidate both outputs of this transaction
+			for _, o := range s.Book.List {
+				if o.Scope == sc && o.Account == acct {
+					own = o
+					break
+				}
+			}
+		}
+		outs = append(outs, wire.NewTxOut(30000, own.Script))
 	}
 	hadOtherUnconfirmed := len(r.unconfirmed()) > 0
 	before := r.snapshot()
@@ -136,6 +146,15 @@ func (r *run) attempt(t *rapid.T) {
 				if co.Block == nil && co.Value > 5000 && s.F.Chain.LookupTx(op.Hash) != nil && r.known(op.Hash) {
 					sc = csc
 					chainFrom = []wire.OutPoint{op}
+					// a second output of the same unconfirmed parent, if the
+					// wallet has one in this scope (a consolidation)
+					for _, op2 := range ops {
+						if op2 != op && op2.Hash == op.Hash && elig[op2].Block == nil && rapid.Bool().Draw(t, "bothOutputsOfTheParent") {
+							chainFrom = append(chainFrom, op2)
+							s.C.Class("chained-on-two-outputs-of-one-parent")
+							break
+						}
+					}
 					outs = []*wire.TxOut{wire.NewTxOut(co.Value/3, s.ExternalScript())}
 					minconf = 0
 					viaSend = false
@@ -147,8 +166,19 @@ func (r *run) attempt(t *rapid.T) {
 	}
 	// program the backend
 	var offered *wire.MsgTx
+	// The programmed answer is for the transaction of this attempt. The wallet
+	// re-offers its older unconfirmed transactions from a goroutine of its own
+	// after every resynchronisation, possibly this late: those get the answer
+	// the model node gives (it holds them already).
+	older := map[chainhash.Hash]bool{}
+	for _, h := range r.unconfirmed() {
+		older[h] = true
+	}
 	program := func() {
 		s.F.Client.SendAnswer = func(tx *wire.MsgTx) error {
+			if older[tx.TxHash()] {
+				return s.F.Chain.Offer(tx)
+			}
 			offered = tx
 			if ans.err != nil && errors.Is(ans.err, chain.ErrTxAlreadyInMempool) {
 				s.F.Chain.AddToMempool(tx) // it is there already
@@ -385,7 +415,13 @@ func (r *run) republish(t *rapid.T) {
 		}
 	}
 	why := rapid.SampledFrom([]error{chain.ErrInsufficientFee, chain.ErrMempoolMinFeeNotMet, errors.New("-26: some other reason")}).Draw(t, "republishWhy")
-	s.F.Client.SendAnswer = func(tx *wire.MsgTx) error { return why }
+	s.F.Client.SendAnswer = func(tx *wire.MsgTx) error {
+		if !desc[tx.TxHash()] {
+			// a late re-offer of an unrelated older transaction
+			return s.F.Chain.Offer(tx)
+		}
+		return why
+	}
 	err := s.F.W.PublishTransaction(p, "")
 	s.F.Client.SendAnswer = nil
 	s.F.Quiesce()
